@@ -57,7 +57,8 @@ def run_session(sess, wdir, idx):
     kc = sess["kernel"]
     out = {"consumed": [], "files": [], "kid": sess["kid"], "collect": sess["collect"], "abort": sess.get("abort", 0), "traces": sess.get("traces", []), "exc": "ok",
            "ncache": sess.get("ncache", 0), "order": kc["order"], "style": kc.get("style", "tf"), "nc": max(kc["extents"].values()),
-           "expr0": kc["expr"], "ops0": kc["ops"], "zshape": kc.get("zshape", 1), "tiled": 1 if kc.get("tile") else 0, "plus": 1 if kc["expr"].get("plus") else 0}
+           "expr0": kc["expr"], "ops0": kc["ops"], "zshape": kc.get("zshape", 1), "tiled": 1 if kc.get("tile") else 0, "plus": 1 if kc["expr"].get("plus") else 0,
+           "ufmt": kc.get("ufmt", []), "nofilter": 1 if kc.get("nofilter") else 0, "extents": kc["extents"]}
     prefix = os.path.join(wdir, f"s{idx}")
     proj.VALUE_MAP = proj.VALUE_MAPS.get(kc.get("vmap", ""))
     try:
